@@ -91,8 +91,15 @@ func ZZ_C07_Step() {
 	// one is present or absent
 	hasReq := vx.Choice("requestedUnit", 2) == 1
 	hasUsed := vx.Choice("usedUnit", 2) == 1
+	// every other scalar member of the request is arbitrary too: the server's
+	// decisions depend on CC-Total-Octets of the relevant group only
+	mscc.ServiceIdentifier = datatype.Unsigned32(vx.Uint32("in.serviceIdentifier"))
+	mscc.ValidityTime = datatype.Unsigned32(vx.Uint32("in.validityTime"))
+	mscc.ResultCode = datatype.Unsigned32(vx.Uint32("in.resultCode"))
 	if hasReq {
-		mscc.RequestedServiceUnit = &charging_datatype.RequestedServiceUnit{CCTotalOctets: datatype.Unsigned64(amount)}
+		mscc.RequestedServiceUnit = &charging_datatype.RequestedServiceUnit{CCTotalOctets: datatype.Unsigned64(amount),
+			CCTime: datatype.Unsigned32(vx.Uint32("in.req.time")), CCInputOctets: datatype.Unsigned64(vx.Uint64("in.req.input")),
+			CCOutputOctets: datatype.Unsigned64(vx.Uint64("in.req.output")), CCServiceSpecificUnits: datatype.Unsigned64(vx.Uint64("in.req.ssu"))}
 	}
 	// the two groups carry independent amounts (an interim update reports usage
 	// and asks for more in one request): reservation and refund act on the
@@ -100,7 +107,8 @@ func ZZ_C07_Step() {
 	usedAmount := vx.Uint64("usedAmount")
 	vx.Assume(usedAmount < 1<<63)
 	if hasUsed {
-		mscc.UsedServiceUnit = &charging_datatype.UsedServiceUnit{CCTotalOctets: datatype.Unsigned64(usedAmount)}
+		mscc.UsedServiceUnit = &charging_datatype.UsedServiceUnit{CCTotalOctets: datatype.Unsigned64(usedAmount),
+			CCInputOctets: datatype.Unsigned64(vx.Uint64("in.used.input")), CCOutputOctets: datatype.Unsigned64(vx.Uint64("in.used.output"))}
 	}
 	ccr.MultipleServicesCreditControl = mscc
 	isReserve := ccr.RequestedAction == charging_datatype.DIRECT_DEBITING &&
